@@ -90,6 +90,11 @@ func init() {
 			}
 			return n
 		},
+		"time.Sleep": func(fr *frame, args []value) value {
+			fr.i.ex.impure("Sleep")
+			fr.i.ex.sched.yield("time.Sleep")
+			return nil
+		},
 		"time.Now": func(fr *frame, args []value) value {
 			panic(Unsupported{"time.Now"})
 		},
